@@ -367,6 +367,21 @@ class C13(Prop):
                                         d['id'] = sent
                                     proto.data_received(json.dumps(d).encode() + b'\n')
                                 sent += 1
+                    elif step[0] == 'arrive_batch':
+                        # one message holding several requests / notifications: its members arrive in the order they are written
+                        ms = []
+                        for _ in range(step[1]):
+                            if sent < n:
+                                d = {'jsonrpc': '2.0', 'method': 'work', 'params': [sent]}
+                                if sent % 7 != 3:
+                                    d['id'] = sent
+                                ms.append(d)
+                                sent += 1
+                        if ms and msg:
+                            for d in ms:
+                                proto.data_received(fr.frame((b'work', b'%d' % d['params'][0])))
+                        elif ms:
+                            proto.data_received(json.dumps(ms).encode() + b'\n')
                     elif step[0] == 'finish':
                         live = sorted(running)
                         for k in live[:step[1]]:
@@ -505,11 +520,17 @@ class C13(Prop):
                       'steps': [['arrive', 20], ['cost', 12000], ['cost', c2], ['arrive', 30], ['advance', 1.0], ['finish', 5],
                                 ['advance', 1.0], ['finish', 60]]}
                      for k, tr, c2 in (('rpc', 'rs', 0), ('message', 'us', 0), ('rpc', 'us', 6000))]
+        # batches arriving while the limit is saturated: the members wait, and are served, in the order they were written
+        directed += [{'session_workload': True, 'n': 60, 'session': 'rpc', 'transport': tr,
+                      'steps': [['arrive', 20], ['arrive', 1], ['arrive_batch', 5], ['arrive', 1], ['advance', 0.5]] +
+                               [['finish', 1], ['advance', 0.2]] * 10 + [['arrive_batch', 3], ['finish', 60], ['advance', 1.0]]}
+                     for tr in ('rs', 'us')]
         for i in range(n):
             steps = []
             for _ in range(rng.randrange(4, 14)):
                 r = rng.random()
-                steps.append(['arrive', rng.choice([1, 5, 30, 70])] if r < 0.5 else
+                steps.append(['arrive_batch', rng.choice([2, 3, 6, 25])] if r < 0.12 else
+                             ['arrive', rng.choice([1, 5, 30, 70])] if r < 0.5 else
                              ['finish', rng.choice([1, 3, 10, 40])] if r < 0.85 else ['limit', rng.choice([3, 8, 20, 30])])
             if rng.random() < 0.4:
                 # the cost of the session moves between arrivals and time passes: delays differ from request to request
